@@ -13,11 +13,11 @@ func init() {
 	register(&PropMeta{
 		ID:          "C09",
 		Level:       "other",
-		Explanation: "Decides the protocol the gate drives on its ready group: (R1) Setup performs Stop → OnCompleted → ResetParticipants → Add(index, false) for every given participant → Start, nothing on the ready group after Start, and stores the game count before Start; (R2) a ready signal from an unknown participant returns the not-found error before the ready group is touched, the ready flag is stored only on the success path and the signalled index is the looked-up participant's; (R3) the user callback is invoked from exactly one function, which first marks every participant ready and passes a by-value state snapshot, and that function is called only from completion closures registered with OnCompleted; (R4) both constructors build the ready group with the configured timeout and a handler that readies every not-yet-ready participant; (R5) the gate rebuilt from a saved state registers the same completion target, copies game count and participants and re-adds them (pending first, then the ready ones as ready). NOT decided: exactly-once / supersession / timeout behaviour under schedules (syncsaga's atomics and goroutines).",
+		Explanation: "Decides the protocol the gate drives on its ready group: (R1) Setup performs Stop → OnCompleted → ResetParticipants → Add(index, false) for every given participant → Start, nothing on the ready group after Start, and stores the game count before Start; (R2) a ready signal from an unknown participant returns the not-found error before the ready group is touched, the ready flag is stored only on the success path and the signalled index is the looked-up participant's; (R3) the user callback is invoked from exactly one function, which first marks every participant ready, then invokes the callback unconditionally with a by-value state snapshot, and that function is called only from completion closures registered with OnCompleted; (R4) both constructors build the ready group with the configured timeout and a handler that readies every not-yet-ready participant; (R5) the gate rebuilt from a saved state registers the same completion target, copies game count and participants and re-adds them (pending first, then the ready ones as ready). NOT decided: exactly-once / supersession / timeout behaviour under schedules (syncsaga's atomics and goroutines).",
 		Rules: map[string]string{
 			"R1": "set-up typestate on the ready group; nobody pre-readied; game count stored before Start; the gate's own participant map is replaced by a fresh empty map after Stop and before every Add, with one entry per Add",
 			"R2": "unknown participant → error before any ready-group signal; IsReady only on success; own index signalled; no known-nil error returned",
-			"R3": "single completion function: marks all ready, passes a by-value snapshot; reachable only as OnCompleted callback",
+			"R3": "single completion function: marks all ready, passes a by-value snapshot, invokes the user callback unconditionally; reachable only as OnCompleted callback",
 			"R4": "timeout wiring in both constructors",
 			"R5": "rebuilt gate: same completion target, saved game count and participants",
 		},
@@ -371,6 +371,15 @@ func checkC09(c *Ctx) {
 					}
 				}
 				c.Check(okMark, "R3", "all-marked-ready-first", p.InstrPos(ci), "every participant marked ready before the callback", "the callback can report participants that are not marked ready")
+				// … and unconditionally: a completion always reaches the user (only the marking loop precedes it)
+				cond := ""
+				for _, g := range p.Guards(ci) {
+					loopExit := g.Cond.Contains(func(x *Sym) bool { return x.Kind == "next" || x.Kind == "ind" || x.Kind == "rangekey" || x.Kind == "rangeval" })
+					if !loopExit {
+						cond = g.String()
+					}
+				}
+				c.Check(cond == "", "R3", "callback-on-every-completion", p.InstrPos(ci), "no condition between the completion and the user callback", "the completion function reports to the user only under "+cond+": a completed (or timed-out) set-up can stay unreported")
 			}
 		}
 	}
